@@ -19,6 +19,21 @@ FATAL = [('unresolvable label', 'ld8 undefined_label_xyz'), ('unresolvable label
          ('value its field cannot hold (16 bit)', 'ld16 65536'), ('value its field cannot hold (4 bit)', 'ld4 16'),
          ('value its field cannot hold (4 bit, negative)', 'ld4 0-9'), ('value its field cannot hold (4 bit, negative)', 'ld4 0-15'),
          ('value its field cannot hold (12 bit)', 'ld12 4096'), ('value its field cannot hold (12 bit, negative)', 'ld12 0-2049')]
+# unresolvable references that need more than one file: names of file scope and local scope are not visible across an #include
+FATAL_FILES = [
+    ("the includer's file label used by the included file", {'main.asm': '_fil1:\nnop\n#include "inc1.asm"\n', 'inc1.asm': 'ld16 _fil1\n'}),
+    ("the includer's file constant used by the included file", {'main.asm': '_KF = 5\nnop\n#include "inc1.asm"\n', 'inc1.asm': 'ld8 _KF\n'}),
+    ("the included file's file label used by the includer", {'main.asm': 'nop\n#include "inc1.asm"\nld16 _fil1\n', 'inc1.asm': '_fil1:\nnop\n'}),
+    ("a sibling file's file label", {'main.asm': '#include "inc1.asm"\n#include "inc2.asm"\n', 'inc1.asm': '_fil1:\nnop\n', 'inc2.asm': 'ld16 _fil1\n'}),
+    ("the includer's local label used by the included file", {'main.asm': 'glob1:\n.loc1:\nnop\n#include "inc1.asm"\n', 'inc1.asm': 'ld16 .loc1\n'}),
+    ("the includer's file label used two includes down", {'main.asm': '_fil1:\nnop\n#include "inc1.asm"\n', 'inc1.asm': 'nop\n#include "inc2.asm"\n', 'inc2.asm': 'glob2:\nld16 _fil1\n'}),
+    ("a local label of another region", {'main.asm': 'glob1:\n.loc1:\nnop\nglob2:\nld16 .loc1\n'}),
+    ("a muted unresolvable reference", {'main.asm': '#mute\nld16 nowhere_defined\n#unmute\nnop\n'}),
+]
+FATAL_FILES_CONTROL = [
+    {'main.asm': 'glob1:\nnop\n#include "inc1.asm"\nld16 glob2\n', 'inc1.asm': 'glob2:\nld16 glob1\n_fil1:\nld16 _fil1\n'},
+    {'main.asm': '_fil1:\nnop\n#include "inc1.asm"\nld16 _fil1\n', 'inc1.asm': '_fil1:\nld16 _fil1\n'},
+]
 FATAL_OK_CONTROL = ['ld4 15', 'ld4 0-8', 'ld12 4095', 'ld12 0-2048', 'ld8 255', 'ld8 0-128']
 
 
@@ -182,13 +197,13 @@ def run(chk):
     chk.rule = ('(a) Outcome.tla: TLC checks FailClosed, SuccessMeansWritten, NoWriteBeforeChecks, Progress and Termination '
                 '(weak fairness) on the outcome automaton. (b) TLC enumerates programs over AlphaC16/AlphaC02wide (zero-length '
                 'fills / zerountil / zero in every position, muted regions, excluded blocks, unresolved and oversized operands); '
-                'each is run by the real code with a pre-existing sentinel image, without and with each pretty-print format; '
+                'each is run by the real code with a pre-existing sentinel image, without and with each pretty-print format (a third of them also with a tab for every blank); '
                 'the outside observation (file altered?, exit class, watchdog) is a trace that Trace_Outcome.tla must accept, '
                 'and accept/reject must equal the specification. A seeded sample goes through the CLI in subprocesses (real '
                 'exit status). (c) seeded corruptions (dropped / duplicated / garbled tokens and lines, swapped lines, '
                 'truncations, zero-length directives, junk lines) of rendered and repository programs: every observation trace '
                 'must be accepted. (d) fatal injections (unresolvable label, unknown instruction, statement no variant accepts, '
-                'value its field cannot hold) into accepted programs must never end in exit_ok. (e) a program whose identifiers are 46 characters long and whose numbers have 28 digits, with every single token dropped / doubled, every line truncated after each token, every comma dropped, junk appended to every line, plus seeded corruptions: every run must terminate (a pattern matcher whose work doubles per character does not) and be accepted by Trace_Outcome.tla. '
+                'value its field cannot hold; references to file-scope and local names across #include boundaries in multi-file programs) into accepted programs must never end in exit_ok. (e) a program whose identifiers are 46 characters long and whose numbers have 28 digits, with every single token dropped / doubled, every line truncated after each token, every comma dropped, junk appended to every line, plus seeded corruptions: every run must terminate (a pattern matcher whose work doubles per character does not) and be accepted by Trace_Outcome.tla. '
                 'Non-trivial = distinct (program text, format) whose run exercised a rejection or a zero-length line.')
     chk.assumptions = ['termination is observed with a 10 s watchdog (programs assemble in milliseconds)',
                        'no oracle on whether corrupted text is accepted - only the implications of the statement',
@@ -218,6 +233,12 @@ def run(chk):
                 case, _ = asmcheck.build_case(s, params, pretty=f)
                 cases.append(case)
                 meta.append((s, f))
+            if len(cases) % 3 == 0:
+                # the same program with a tab for every blank between tokens: same outcome
+                case, _ = asmcheck.build_case(s, params, pretty=fmts[0])
+                case['files'] = {k: v.replace(' ', '\t') for k, v in case['files'].items()}
+                cases.append(case)
+                meta.append((s, fmts[0]))
             if s['status'] == 'ok' and len(rendered_ok) < 400 and len(s['prog']) >= 2:
                 rendered_ok.append((case, params))
         obs = runner.pmap(_obs_inproc, cases)
@@ -292,6 +313,13 @@ def run(chk):
         for line in FATAL_OK_CONTROL:
             fcases.append(dict(case, files=dict(case['files'], **{'main.asm': case['files']['main.asm'] + line + '\n'}), pretty=None))
             fmeta.append(('CONTROL', line, 'bottom'))
+    for what, files in FATAL_FILES:
+        for fmt in FORMATS:
+            fcases.append({'config': carrier_yaml(), 'files': files, 'pretty': fmt, 'timeout': 10.0})
+            fmeta.append((what, 'see files', 'files'))
+    for files in FATAL_FILES_CONTROL:
+        fcases.append({'config': carrier_yaml(), 'files': files, 'pretty': None, 'timeout': 10.0})
+        fmeta.append(('CONTROL', 'multi-file program with only visible references', 'files'))
     fobs = runner.pmap(_obs_inproc, fcases)
     acc = tlc_accept(chk, [o[0] for o in fobs])
     for i, (c, o, m) in enumerate(zip(fcases, fobs, fmeta)):
